@@ -156,6 +156,7 @@ def docKeys : List (Name × Name × Bool) := [
     (n!"Product of dilated kernel width and height must be in the range [#, #]", n!"constraint_dilated_product_range", false),
     (n!"Weight tensor must be #-bit", n!"constraint_weights_type", false),
     (n!"Weight tensor must be constant", n!"constraint_weights_const", false),
+    (n!"For int# and int# IFM the Weight tensor zero points must all be # (--force-symmetric-int-weights sets them to #)", n!"constraint_weights_symmetric", false),
     (n!"The sum of the weights cannot exceed #", n!"constraint_weights_limit", false),
     (n!"Optional Bias tensor must be of shape: #D", n!"constraint_bias_shape", false),
     (n!"Optional Bias tensor must be of type: ", n!"constraint_bias_type", false),
@@ -459,6 +460,7 @@ def paramsAgree (doc live : Params) : List String :=
     the model's transcription uses exactly these -/
 def literalNums : List (Name × List Nat) := [
   (n!"constraint_batch_size", [1]),
+  (n!"constraint_weights_symmetric", [8, 16, 0, 0]),
   (n!"constraint_depth_multiplier", [1, 1]),
   (n!"constraint_tconv_stride", [1, 1, 2, 2, 2, 1, 1]),
   (n!"constraint_resize", [1, 1, 1, 2, 4, 8, 1, 1, 2, 4, 8]),
@@ -483,7 +485,9 @@ def literalNums : List (Name × List Nat) := [
 
 def literalProblems : List String :=
   literalNums.filterMap fun (name, ns) =>
-    if nums (docOf name) == ns then none else some s!"numerals of {ofName name} changed"
+    -- a function that does not exist in this tree has no sentence to compare
+    if !((semDocs ++ supDocs).any (·.1 == name)) || nums (docOf name) == ns then none
+    else some s!"numerals of {ofName name} changed"
 
 def tableProblems (r : Report) : List String :=
   if r.table == expectedTable then [] else ["summary table"]
@@ -539,12 +543,10 @@ def reportDrift (a b : Report) : List Drift :=
   (b.specific.filterMap fun (n, _) =>
     if a.specific.any (·.1 == n) || !(a.table.any (·.1 == n)) then none else some (7, n, []))
 
-/-- Differences between the committed SUPPORTED_OPS.md (first) and the fresh report (second) that are
-    recorded in known_findings.txt (keys `doc-drift:<kind>:<operator>:<constraint>`):
-    GELU, LOG and SQRT are accelerated but not documented; the committed file still promises
-    "The pad tensor can only pad width and height" for PAD, which the code no longer enforces. -/
-def knownDrift : List Drift :=
-  [ (1, n!"GELU", []), (1, n!"LOG", []), (1, n!"SQRT", []), (4, n!"PAD", n!"constraint_padding_dimensions") ]
+/-- Differences between the committed SUPPORTED_OPS.md (first) and the fresh report (second) that are tolerated:
+    none.  (Until the report was regenerated in /repo — known_findings.txt `fixed: property=C16 …` — four were
+    recorded here: GELU, LOG, SQRT undocumented and a PAD sentence the code no longer enforced.) -/
+def knownDrift : List Drift := []
 
 def showDrift (l : List Drift) : String :=
   if l.isEmpty then "ok" else
